@@ -8,7 +8,7 @@ from typing import Any, Dict, List, Optional
 
 from sim.client import REPLY_VERBS, REQUEST_VERBS, task_name
 from sim.core import HarnessError, RunResult, mix
-from sim.net import SPA_IP, inner_of
+from sim.net import SPA_IP, SPA_PORT, inner_of
 from sim.peers import snapshot_files
 from sim.system import System, draw_tables, table_max
 from sim.worlda import WorldA
@@ -68,8 +68,15 @@ def gen_case(seed: int, tier: str, index: int) -> Dict[str, Any]:
             # so the fault-free configuration (which carries the must-succeed obligation) never does it
             op["cancel_after"] = round(rng.uniform(0.0, 3 * T), 3)
         plan.append(op)
+    junk: List[Any] = []
+    if profile in ("silent", "mixed", "replyloss") and rng.random() < 0.6:
+        # stray datagrams at the connection's endpoint while requests go unanswered: framed packets that lack part of their structure,
+        # empty frames, unknown verbs (nothing of this may complete a request)
+        for _ in range(rng.randint(3, 25)):
+            junk.append([round(rng.uniform(2.0, dur), 3), rng.randrange(8)])
+        junk.sort()
     snaps = snapshot_files()
-    cfg = {"profile": profile, "net": net, "loop": loop_cfg, "tables": tables, "duration": dur, "silent": silent,
+    cfg = {"profile": profile, "net": net, "loop": loop_cfg, "tables": tables, "duration": dur, "silent": silent, "junk": junk,
            "snapshot": snaps[rng.randrange(len(snaps))].split("/")[-1],
            "suspend_p": rng.choice([0.0, 0.0, 0.1]), "suspend_max": 0.5}
     if rng.random() < 0.3:
@@ -230,6 +237,20 @@ async def scenario(world: WorldA) -> None:
                 model.silent_verbs.discard(verb)
         sil = asyncio.create_task(silencer(), name="HARNESS:silencer")
 
+        async def junker():
+            forms = [b"<PACKT></PACKT>", b"<PACKT><SRCCN>SPA01:02:03:04:05:06</SRCCN></PACKT>", b"<PACKT><DATAS>PACKS</DATAS></PACKT>",
+                     b"<PACKT><SRCCN>SPA01:02:03:04:05:06</SRCCN><DESCN>IOSverif-0001</DESCN></PACKT>", b"<PACKT>PACKS</PACKT>", b"XQZZY\x01",
+                     b"<PACKT><SRCCN></SRCCN><DESCN></DESCN></PACKT>", b"<PACKT>\n</PACKT>"]
+            for (t, form) in cfg.get("junk", []):
+                await asyncio.sleep(max(0.0, base + t - world.now()))
+                cur = sysm.spa
+                tr = sysm.client_endpoint_of(cur) if cur is not None else None
+                if tr is None or tr.is_closing():
+                    continue
+                world.net.inject((sysm.peer.ip, SPA_PORT), tr.local, forms[form % len(forms)], who="junk")
+                res.fault("junk_datagram")
+        jk = asyncio.create_task(junker(), name="HARNESS:junker")
+
         async def canceller(t: asyncio.Task, delay: float):
             await asyncio.sleep(delay)
             if not t.done():
@@ -252,6 +273,7 @@ async def scenario(world: WorldA) -> None:
         world.net.blackouts = []
         model.silent_verbs.clear()
         sil.cancel()
+        jk.cancel()
         world.loop.stalls_on = False
         heal_t = world.now()
         R = 10
@@ -289,6 +311,25 @@ def check_history(world: WorldA, sysm: System, ops, heal_t: float, per_call: flo
         if r.src[0] != SPA_IP and r.verb in REQUEST_VERBS:
             by_src.setdefault(r.src, []).append(r)
     local_of = {label: tr.local for label, tr in sysm.transports.items()}
+    # conservation on the receive queue: what the packet consumer puts back is the content of the packet it has just taken off
+    requeue_without_arrival: Dict[Any, List[Any]] = {}
+    for label, q in sysm.queues.items():
+        last_packet_inner: Dict[str, Optional[bytes]] = {}
+        events = []
+        for it in q.items:
+            events.append((it["put_seq"], "put", it))
+            for pp in it["pops"]:
+                events.append((pp["seq"], "pop", it, pp))
+        events.sort(key=lambda e: e[0])
+        for e in events:
+            if e[1] == "pop" and e[2]["item"][0].startswith(b"<PACKT>"):
+                last_packet_inner[e[3]["by"]] = inner_of(e[2]["item"][0])
+            elif e[1] == "put" and e[2]["put_by"] not in ("loop",) and not str(e[2]["put_by"]).startswith("HARNESS"):
+                inner = last_packet_inner.get(e[2]["put_by"])
+                if inner is None or inner != e[2]["item"][0]:
+                    requeue_without_arrival.setdefault(label, []).append(e[2])
+                    res.probe("requeue_differs_from_unwrapped_packet")
+                last_packet_inner[e[2]["put_by"]] = None        # one re-queue per packet
     calls = sysm.calls.calls
     shape = []
     for c in calls:
@@ -334,6 +375,13 @@ def check_history(world: WorldA, sysm: System, ops, heal_t: float, per_call: flo
         if c["outcome"] in ("ok", "none") and dur - stall > bound:
             world.violate(PROP, "call-too-slow", f"{ctx}: took {dur:.2f}s (stall {stall:.2f}s), bound {bound:.2f}s")
         # 2. a reply is returned only if one was delivered (came off the wire to this endpoint) and taken by this call
+        if c["outcome"] == "ok" and requeue_without_arrival:
+            label0 = next((lb for lb, loc in local_of.items() if loc == sends[0].src), None)
+            for bad in requeue_without_arrival.get(label0, []):
+                if any(p["by"] == c["task"] and c["invoke_seq"] < p["seq"] < c["return_seq"] for p in bad["pops"]):
+                    world.violate(PROP, "reply-from-nowhere", f"{ctx}: returned success on {bad['item'][0][:12]!r}, which was put on the receive queue by "
+                                  f"{bad['put_by']} at {bad['put_t']:.3f} although the packet it had just unwrapped did not contain it (a replay of earlier content)",
+                                  sig="reply-from-nowhere:replayed-content")
         if c["outcome"] == "ok":
             label = next((lb for lb, loc in local_of.items() if loc == sends[0].src), None)
             q = sysm.queues.get(label)
